@@ -3,6 +3,7 @@ package checks
 import (
 	"encoding/json"
 	"fmt"
+	"path/filepath"
 	"regexp"
 	"sort"
 	"strings"
@@ -29,11 +30,20 @@ type renameCase struct {
 	Renamed  string            `json:"renamed"`
 	Mapping  map[string]string `json:"mapping"`
 	Backend  string            `json:"backend,omitempty"`     // "" = bash, "batch" = cmd.exe model
-	Others   map[string]string `json:"other_files,omitempty"` // imported files (the same for base and renamed; Base/Renamed are main.tsh)
+	Others   map[string]string `json:"other_files,omitempty"` // the other files (the same for base and renamed)
+	File     string            `json:"file,omitempty"`        // the file Base/Renamed are the text of ("" = main.tsh, the entry file)
 }
 
-func withMain(src string, others map[string]string) map[string]string {
-	files := map[string]string{"main.tsh": src}
+// fileOf is the name of the file a rename case changes; main.tsh is always the entry file.
+func (c renameCase) fileOf() string {
+	if c.File == "" {
+		return "main.tsh"
+	}
+	return c.File
+}
+
+func withMain(file, src string, others map[string]string) map[string]string {
+	files := map[string]string{file: src}
 	for k, v := range others {
 		files[k] = v
 	}
@@ -190,8 +200,8 @@ type bashObs struct {
 	script      string
 }
 
-func observeBash(src string, others map[string]string) bashObs {
-	tr := run.TranspileSrc(withMain(src, others), "main.tsh", run.Bash)
+func observeBash(file, src string, others map[string]string) bashObs {
+	tr := run.TranspileSrc(withMain(file, src, others), "main.tsh", run.Bash)
 	if !tr.Accepted() {
 		return bashObs{verdict: tr.Verdict(), stderr: tr.ErrText()}
 	}
@@ -200,8 +210,8 @@ func observeBash(src string, others map[string]string) bashObs {
 }
 
 // observeBatch runs the Batch output under the cmd.exe model; inconclusive runs are reported as such.
-func observeBatch(src string, others map[string]string) (verdict string, stdout string, status int, inconclusive string) {
-	tr := run.TranspileSrc(withMain(src, others), "main.tsh", run.Batch)
+func observeBatch(file, src string, others map[string]string) (verdict string, stdout string, status int, inconclusive string) {
+	tr := run.TranspileSrc(withMain(file, src, others), "main.tsh", run.Batch)
 	if !tr.Accepted() {
 		return tr.Verdict(), "", 0, ""
 	}
@@ -211,11 +221,11 @@ func observeBatch(src string, others map[string]string) (verdict string, stdout 
 
 // checkRenamePairBatch: same metamorphic relation for the Batch target under the cmd.exe model.
 func checkRenamePairBatch(c renameCase) (string, string) {
-	bv, bout, bst, binc := observeBatch(c.Base, c.Others)
+	bv, bout, bst, binc := observeBatch(c.fileOf(), c.Base, c.Others)
 	if bv != "accept" || binc != "" {
 		return "", ""
 	}
-	nv, nout, nst, ninc := observeBatch(c.Renamed, c.Others)
+	nv, nout, nst, ninc := observeBatch(c.fileOf(), c.Renamed, c.Others)
 	if nv == "reject" {
 		return "", ""
 	}
@@ -244,11 +254,11 @@ func checkRenamePair(c renameCase) (string, string) {
 	if c.Backend == "batch" {
 		return checkRenamePairBatch(c)
 	}
-	b := observeBash(c.Base, c.Others)
+	b := observeBash(c.fileOf(), c.Base, c.Others)
 	if b.verdict != "accept" {
 		return "", "" // the base program is not this property's business
 	}
-	n := observeBash(c.Renamed, c.Others)
+	n := observeBash(c.fileOf(), c.Renamed, c.Others)
 	switch n.verdict {
 	case "reject":
 		return "", ""
@@ -551,32 +561,60 @@ func c10MultiFile(t *rapid.T, r *rep.R) bool {
 	if !ok {
 		return false
 	}
+	// every imported file also gets top-level code whose names are NOT globals of the file: a block-local variable, the
+	// variable of a for header and the variables of a range header (they are stored without the file's prefix)
+	fileNames := run.SortedKeys(sp.prog.Files)
+	for _, fn := range fileNames {
+		if fn == "main.tsh" {
+			continue
+		}
+		tag := ts.StrLit{V: strings.TrimSuffix(filepath.Base(fn), ".tsh")}
+		lt, lk, li, lv := ts.VarRef{Name: "lt", Ty: ts.TInt}, ts.VarRef{Name: "lk", Ty: ts.TInt}, ts.VarRef{Name: "li", Ty: ts.TInt}, ts.VarRef{Name: "lv", Ty: ts.TString}
+		fl := sp.prog.Files[fn]
+		fl.Stmts = append(fl.Stmts,
+			ts.If{Cond: ts.Cmp{Op: "==", L: ts.IntLit{V: 1}, R: ts.IntLit{V: 1}}, Then: []ts.Stmt{
+				ts.VarDecl{Names: []string{"lt"}, Ty: ts.TInt, Tys: []ts.Type{ts.TInt}, Vals: []ts.Expr{ts.IntLit{V: 40}}, Form: ts.DeclShort},
+				ts.IncDec{Name: "lt", Inc: true}, ts.Print{Args: []ts.Expr{tag, lt}}}},
+			ts.For{Kind: ts.ForClause, Init: ts.VarDecl{Names: []string{"lk"}, Ty: ts.TInt, Tys: []ts.Type{ts.TInt}, Vals: []ts.Expr{ts.IntLit{V: 50}}, Form: ts.DeclShort},
+				Cond: ts.Cmp{Op: "<", L: lk, R: ts.IntLit{V: 52}}, Post: ts.IncDec{Name: "lk", Inc: true}, Body: []ts.Stmt{ts.Print{Args: []ts.Expr{tag, lk}}}},
+			ts.Range{I: "li", V: "lv", X: ts.StrLit{V: "ab"}, Body: []ts.Stmt{ts.Print{Args: []ts.Expr{tag, li, lv}}}})
+	}
 	srcs := ts.Sources(sp.prog)
+	// the file whose identifier is renamed: the main file or an imported one
+	target := fileNames[gen.Uniform(0, len(fileNames)-1).Draw(t, "mf-file")]
 	others := map[string]string{}
 	for k, v := range srcs {
-		if k != "main.tsh" {
+		if k != target {
 			others[k] = v
 		}
 	}
 	vars, funcs := map[string]bool{}, map[string]bool{}
-	(&ts.Rewriter{Name: func(n, role string) string {
-		if role == "func" {
-			funcs[n] = true
-		} else if role != "alias" {
-			vars[n] = true
-		}
-		return n
-	}}).Stmts(sp.prog.Files["main.tsh"].Stmts)
 	user := map[string]bool{}
-	for n := range vars {
-		user[n] = true
-	}
-	for n := range funcs {
-		user[n] = true
+	elsewhere := map[string]bool{} // identifiers of the OTHER files
+	for _, fn := range fileNames {
+		(&ts.Rewriter{Name: func(n, role string) string {
+			if role == "alias" {
+				return n
+			}
+			user[n] = true
+			if fn != target {
+				elsewhere[n] = true
+			} else if role == "func" {
+				funcs[n] = true
+			} else {
+				vars[n] = true
+			}
+			return n
+		}}).Stmts(sp.prog.Files[fn].Stmts)
 	}
 	for _, n := range sp.movedPublic {
 		user[n] = true
 		delete(funcs, n) // names of imported functions are not renamed here
+	}
+	for n := range funcs {
+		if n[0] >= 'A' && n[0] <= 'Z' {
+			delete(funcs, n) // a public function of an imported file is used by other files
+		}
 	}
 	tr := run.TranspileSrc(srcs, "main.tsh", run.Bash)
 	if !tr.Accepted() {
@@ -594,23 +632,41 @@ func c10MultiFile(t *rapid.T, r *rep.R) bool {
 	if len(pool) == 0 || len(cands) == 0 {
 		return false
 	}
+	// half of the time the new spelling is one under which a name of ANOTHER file lives in the script (it contains that name)
+	foreign := []string{}
+	for _, spell := range pool {
+		for n := range elsewhere {
+			if len(n) >= 2 && !vars[n] && !funcs[n] && strings.Contains(strings.ToLower(spell), strings.ToLower(n)) {
+				foreign = append(foreign, spell)
+				break
+			}
+		}
+	}
 	key := cands[gen.Uniform(0, len(cands)-1).Draw(t, "mf-ident")]
 	nn := pool[gen.Uniform(0, len(pool)-1).Draw(t, "mf-name")]
+	if len(foreign) > 0 && gen.Uniform(0, 1).Draw(t, "mf-foreign") == 1 {
+		nn = foreign[gen.Uniform(0, len(foreign)-1).Draw(t, "mf-foreign-name")]
+		r.Class("rename:multi-file-spelling-of-another-file")
+	}
 	mapping := map[string]string{key: nn}
 	renamedStmts := (&ts.Rewriter{Name: func(n, role string) string {
 		k := n + "/variable"
 		if role == "func" {
 			k = n + "/function"
 		}
+		if role == "alias" {
+			return n
+		}
 		if v, ok := mapping[k]; ok {
 			return v
 		}
 		return n
-	}}).Stmts(sp.prog.Files["main.tsh"].Stmts)
-	mainF := *sp.prog.Files["main.tsh"]
-	mainF.Stmts = renamedStmts
-	renamed := ts.FileString(&mainF)
-	c := renameCase{Kind: "rename-pair", Property: "C10", Base: srcs["main.tsh"], Renamed: renamed, Mapping: mapping, Others: others}
+	}}).Stmts(sp.prog.Files[target].Stmts)
+	tf := *sp.prog.Files[target]
+	tf.Stmts = renamedStmts
+	renamed := ts.FileString(&tf)
+	r.Class("rename:multi-file-in:" + map[bool]string{true: "main-file", false: "imported-file"}[target == "main.tsh"])
+	c := renameCase{Kind: "rename-pair", Property: "C10", Base: srcs[target], Renamed: renamed, Mapping: mapping, Others: others, File: target}
 	r.Eval()
 	r.Class("rename:multi-file-mangled-spelling/" + strings.SplitN(key, "/", 2)[1])
 	r.NonTrivial(renamed+nn, map[string]any{"mapping": mapping, "renamed": renamed, "other_files": others})
